@@ -436,6 +436,9 @@ def run_blocks(ctx, res, jinja2):
     others = [(f, a, b) for f in filters for a in BLOCK_ARGS for b in BODIES]
     rng.shuffle(others)
     combos += others[: ctx.pick(700, len(others))]
+    # chains of 2-3 filters: the buffer enters the first as Markup, each later filter gets the previous result
+    links = [f + "(" + a + ")" if a else f for f, a in SIX] + ["upper", "string", "trim", "default('zz')", "title", "center(30)", "e", "forceescape", "list|join(w)"]
+    chains = [("chain", "|".join(rng.choice(links) for _ in range(rng.choice([2, 2, 3]))), b) for b in BODIES for _ in range(ctx.pick(12, 120))]
     data = {"x": rng.choice(["<m1>", "\"m2'", "a<m6>b"]), "y": rng.choice(["<y1>", "' y2=\"<"]), "w": rng.choice(["<w>", "\"'w", ">w<"]), "n": 3, "flag": True}
     data["tree"] = marker_tree(rng, 3)
     reqs, jobs = [], []
@@ -464,8 +467,8 @@ def run_blocks(ctx, res, jinja2):
 
     for mode in MODES:
         env = make_env(jinja2, mode, {})
-        for f, a, b in combos:
-            call = f + (f"({a})" if a else "")
+        for f, a, b in combos + chains:
+            call = a if f == "chain" else f + (f"({a})" if a else "")
             add(mode, env, f"C15:leak:filter-block:{f}", "{% filter " + call + " %}" + b + "{% endfilter %}", "filter-block")
             add(mode, env, f"C15:leak:filtered-set-block:{f}", "{% set vv | " + call + " %}" + b + "{% endset %}{{ vv }}", "filtered-set-block")
         for lit in LITERALS:
